@@ -7,6 +7,7 @@ J3  BusTrace.tla: TLC evaluates Bus.tla's property definitions on the recorded l
     observations (verdict) and checks every observed step against Bus!Next (conformance / drift).
     The same for free-running concurrent executions (`vh bus conc`, seeded by VERIF_SEED).
 """
+import concurrent.futures
 import json
 import os
 import random
@@ -22,6 +23,7 @@ INVARIANTS = ["NoBlocked", "NoTimeout", "ExactlyOnceInOrder", "ReadersOK", "Read
               "EndComplete", "CloseReturns"]
 TIMEOUT_MS = 4000          # per API call / per owed read; doubled for the confirmation run in isolation
 HEAP = "3g"
+CHUNK_LINES = 120000       # trace lines per TLC process in J3
 MAX_STUCK = 3              # after this many runs with a stuck call / missing owed event stop executing more
 
 
@@ -138,14 +140,12 @@ def _tlc_trace(lines, invariants=None, conform=False, workers=8):
     return r
 
 
-def judge(lines, invariants=None, conform=False, max_findings=6):
-    """Let TLC judge a recorded trace (many runs). Returns (findings, states). TLC stops at the first violation,
-    so the offending run is taken out and the rest is judged again, until clean."""
+def _judge_chunk(runs, invariants, conform, max_findings):
     findings, states = [], 0
-    runs = split_runs(lines)
+    runs = list(runs)
     while runs:
         flat = [l for r in runs for l in r]
-        r = _tlc_trace(flat, invariants, conform)
+        r = _tlc_trace(flat, invariants, conform, workers=4)
         if r.ok:
             if r.distinct != len(flat):
                 raise vlib.Inconclusive("J3: TLC consumed %d of %d trace lines" % (r.distinct, len(flat)))
@@ -156,9 +156,8 @@ def judge(lines, invariants=None, conform=False, max_findings=6):
         ls = re.findall(r"/\\ l = (\d+)", r.out)
         if not ls:
             raise vlib.Inconclusive("J3: cannot locate the violating step\n" + r.out[-2000:])
-        # l is the NEXT line (1-based) in the violating state; for an action property the last printed state
-        # is the successor of the offending step as well
-        pos = int(ls[-1]) - 1               # 1-based index of the line just consumed
+        # l is the NEXT line (1-based) in the last printed state, i.e. the state reached by consuming line l-1
+        pos = int(ls[-1]) - 1
         acc = 0
         for i, run in enumerate(runs):
             if pos <= acc + len(run):
@@ -171,6 +170,27 @@ def judge(lines, invariants=None, conform=False, max_findings=6):
         if len(findings) >= max_findings:
             break
     return findings, states
+
+
+def judge(lines, invariants=None, conform=False, max_findings=6):
+    """Let TLC judge a recorded trace (many runs). Returns (findings, states). TLC stops at the first violation,
+    so the offending run is taken out and the rest is judged again, until clean. Large corpora are judged in
+    chunks of whole runs (the Json module holds the whole file in memory), a few TLC processes at a time."""
+    chunks, cur, n = [], [], 0
+    for run in split_runs(lines):
+        if cur and n + len(run) > CHUNK_LINES:
+            chunks.append(cur)
+            cur, n = [], 0
+        cur.append(run)
+        n += len(run)
+    if cur:
+        chunks.append(cur)
+    findings, states = [], 0
+    with concurrent.futures.ThreadPoolExecutor(max_workers=3) as ex:
+        for fs, st in ex.map(lambda c: _judge_chunk(c, invariants, conform, max_findings), chunks):
+            findings += fs
+            states += st
+    return findings[:max_findings * 2], states
 
 
 def binding_selftest(lines):
@@ -281,6 +301,23 @@ def to_violation(pid, f, meta):
     files = {"trace.ndjson": "".join(json.dumps(l) + "\n" for l in f.run_lines),
              "replay.json": json.dumps(dict(meta, invariant=f.invariant, timeout_ms=TIMEOUT_MS))}
     return vlib.Violation(pid, sig, detail, files)
+
+
+def clones_in_flight(lines):
+    """Clones of n created after the root loop received an event e and before n itself received e (the clone
+    hand-over while an event is in flight to the original)."""
+    cnt, root_at, news = 0, {}, {}
+    for i, l in enumerate(lines):
+        if l["k"] == "reset":
+            root_at, news = {}, {}
+        elif l["k"] == "new" and l["n"] != 0:
+            news.setdefault(l["n"], []).append(i)
+        elif l["k"] == "recv" and l["n"] == 0:
+            root_at[l["ev"]] = i
+        elif l["k"] == "recv" and l["ev"] in root_at:
+            cnt += sum(1 for j in news.get(l["n"], []) if j > root_at[l["ev"]])
+            news[l["n"]] = []
+    return cnt
 
 
 class Corpus:
@@ -419,6 +456,7 @@ def run(pid, tier, seed, replay):
         "runs": {"seq": sum(1 for m in corpus.meta.values() if m["mode"] == "seq"),
                  "conc": sum(1 for m in corpus.meta.values() if m["mode"] == "conc")},
         "clones_with_undelivered_buffer": sum(1 for l in corpus.lines if l["k"] == "new" and l["n"] != 0 and l["buf"]),
+        "clones_while_event_in_flight_to_original": clones_in_flight(corpus.lines),
         "rendezvous_lines": sum(1 for l in corpus.lines if l["k"] == "recv" and l["n"] != 0),
         "samples": [[list(x) for x in s] for s in rnd.sample(scripts, 3)],
         "drift_steps": len(drift),
